@@ -51,22 +51,23 @@ type Stats struct {
 }
 
 type World struct {
-	S          *Store
-	Clients    []*Client
-	byName     map[string]*Client
-	Faults     []*FaultSpec
-	chooser    func(n int) int // the program's decision stream
-	Policy     string          // "fifo" | "random" | "sticky"
-	last       string
-	active     int32
-	mu         sync.Mutex
-	Stats      Stats
-	Budget     int
-	Viol       *Violation
-	OnDeliver  func(r *Request) Fault // family-specific dynamic faults (consulted first)
-	AfterEvent func(ev *Event)        // called on the scheduler after each delivered event
-	tableSeq   int
-	start      time.Time
+	StaleCacheServed int32 // node-cache hits that returned a node whose shape changed after it was cached (see nodecache.go)
+	S                *Store
+	Clients          []*Client
+	byName           map[string]*Client
+	Faults           []*FaultSpec
+	chooser          func(n int) int // the program's decision stream
+	Policy           string          // "fifo" | "random" | "sticky"
+	last             string
+	active           int32
+	mu               sync.Mutex
+	Stats            Stats
+	Budget           int
+	Viol             *Violation
+	OnDeliver        func(r *Request) Fault // family-specific dynamic faults (consulted first)
+	AfterEvent       func(ev *Event)        // called on the scheduler after each delivered event
+	tableSeq         int
+	start            time.Time
 
 	held         map[string]int
 	Batch        bool // batch release (C19)
